@@ -230,4 +230,29 @@ PROPS = {
                       "levels only (floats as reals), which is the mathematical half of the claim.",
         "level_note": "The rounding half (relational proof with uninterpreted rounding functions, DESIGN 4.3) is not built yet.",
     },
+    "C20": {
+        "targets": ["spowtd.classify:classify_intervals", "spowtd.classify:populate_zeta_interval",
+                    "spowtd.classify:classify_interstorms", "spowtd.classify:match_all_storms",
+                    "spowtd.zeta_grid:populate_zeta_grid", "spowtd.set_curvature:set_curvature",
+                    "spowtd.rise:find_rise_offsets", "spowtd.rise:find_rise_offsets#reference",
+                    "spowtd.rise:compute_rise_offsets", "spowtd.rise:compute_rise_offsets#reference",
+                    "spowtd.recession:find_recession_offsets", "spowtd.recession:find_recession_offsets#reference",
+                    "spowtd.recession:compute_offsets", "spowtd.recession:compute_offsets#reference"],
+        "structural": ["pyvc.structural:main_obligations", "pyvc.structural:step_obligations"],
+        "bounded": [{"run": "bounded.atomicity_checks:run_C20",
+                     "what": "fault enumeration on a real database file: every SQL statement of every step as a failure point, a sample "
+                             "as kill point (process exit without rollback), re-run after failure, all orders of the independent steps with "
+                             "failed attempts in between - validates the assumed contract (SQLite atomic commit, Python sqlite3 "
+                             "transaction handling) and the commutation claim"}],
+        "level_text": "Typestate proof: a ghost flag `sealed` (a commit has happened in this step); every write statement of every step "
+                      "function carries the obligation `not sealed`, loops carry it as invariant, connection.commit() sets it, and the step "
+                      "functions' postconditions say they commit last (classify, rise, recession) or not at all (grid, curvature). With the "
+                      "AST-level obligations on user_interface.main (each step is the only statement of one `with sqlite3.connect(args.db)` "
+                      "block, no handler, no manual transaction control) and the assumed contract of SQLite / sqlite3, a failed or killed "
+                      "step leaves the old content or the complete result. Commutation: the tables each step writes (from the SQL "
+                      "contracts) are disjoint from what the other reads or writes; exercised by the fault enumeration.",
+        "level_note": "Assumed, never counted as proved: SQLite's journal / atomic commit, the OS, Python's sqlite3 (opens a transaction "
+                      "before the first DML; `with` commits on normal exit and rolls back on exception). Read frames are not derived "
+                      "mechanically in this revision.",
+    },
 }
